@@ -552,3 +552,115 @@ def run(rep: Report, prog: Program, tier: str) -> None:
     # ================================================================ C02-ABANDON (rules of C06)
     import_rules(rep, prog, tier, PROP, "C02-ABANDON", "C06", ["C06-WHOLE", "C06-RECV", "C06-ITER"],
                  "abandoning a partially reliable message never abandons, loses or blocks chunks of other messages (rules C06-WHOLE / C06-RECV / C06-ITER)", 100)
+
+    leak_rule(rep, prog, PROP, "C02-LEAK", tier)
+
+
+def leak_rule(rep: Report, prog: Program, PROP: str, RULE: str, tier: str) -> None:
+    """Flight-size conservation by evaluation: the sender's real _transmit / _receive_sack_chunk / _t3_expired / _maybe_abandon /
+    _update_advanced_peer_ack_point are run (AST level, collaborators stubbed) on loss scenarios with reliable and partially reliable
+    messages.  After every event the bytes counted in _flight_size must not exceed the bytes of the chunks that are really outstanding
+    (in the sent queue, neither acknowledged nor abandoned); once everything is acknowledged a new message must go out at once.
+    An over-count never goes away without a T3 expiry - and no timer runs when nothing is outstanding: the association stalls."""
+    from collections import deque
+    from types import SimpleNamespace
+
+    from engine.index import Unknown
+    from engine.peval import Raised
+
+    from .sctpmodel import build
+    rep.rule(RULE, "bytes counted as in flight never exceed the bytes really outstanding; a fully acknowledged sender can always send", min_instances=8)
+    T_ = "rtcsctptransport.RTCSctpTransport"
+    ci = prog.cls(T_)
+    wire: List[Any] = []
+
+    def st_send(call, ev):
+        wire.append(ev.ev(call.args[0]))
+        return None
+
+    def st_t3(kind):
+        def f(call, ev):
+            me = ev.env["self"]
+            me._t3_handle = None if kind == "cancel" else "timer"
+            return None
+        return f
+    noop = lambda call, ev: None  # noqa: E731
+    stubs = {"self._send_chunk": st_send, "self._t3_start": st_t3("start"), "self._t3_restart": st_t3("restart"), "self._t3_cancel": st_t3("cancel"),
+             "self._data_channel_flush": noop, "self._update_rto": noop, "asyncio.ensure_future": lambda call, ev: [ev.ev(a) for a in call.args] and None}
+    hook, chunk, message = build(prog, stubs)
+    m = lambda n: prog.func(f"{T_}.{n}")  # noqa: E731
+    transmit, sackf, t3x = m("_transmit"), m("_receive_sack_chunk"), m("_t3_expired")
+    MTU = 1200
+
+    def sender(cwnd):
+        return SimpleNamespace(__cls__=ci, _sent_queue=deque(), _outbound_queue=deque(), _last_sacked_tsn=99, _advanced_peer_ack_tsn=99, _forward_tsn_chunk=None,
+                               _forward_tsn_pending=None, _forward_tsn_streams={}, _flight_size=0, _cwnd=cwnd, _ssthresh=131072, _partial_bytes_acked=0,
+                               _fast_recovery_exit=None, _fast_recovery_transmit=False, _t3_handle=None, _rto=3.0, _srtt=None, _rttvar=None, delivered=[])
+
+    def queue(me, first_tsn, stream, seq, nfrag, policy):
+        msg = message(first_tsn, stream, seq, nfrag, False, policy, "x", 0)
+        for c in msg:
+            c.user_data = b"d" * MTU
+            c._book_size = MTU
+            c._sent_count = 0
+            c._sent_time = None
+            me._outbound_queue.append(c)
+        return msg
+
+    def sack(cum, gaps=()):
+        return SimpleNamespace(cumulative_tsn=cum, gaps=list(gaps), duplicates=[], advertised_rwnd=1 << 20)
+
+    def outstanding(me):
+        return sum(c._book_size for c in me._sent_queue if not c._acked and not c._abandoned)
+    scenarios = []
+    for policy, label in ((0, "partially reliable (maxRetransmits=0)"), (None, "reliable")):
+        # first fragment lost, the next three reported one by one while later fragments are still on their way
+        scenarios.append((f"{label} message of 8 fragments, first fragment lost, fast-retransmit path", policy,
+                          [("tx",), ("sack", 99, [(2, 2)]), ("sack", 99, [(2, 3)]), ("sack", 99, [(2, 4)]), ("ackall",)]))
+        scenarios.append((f"{label} message of 8 fragments, a middle fragment lost, fast-retransmit path", policy,
+                          [("tx",), ("sack", 101, []), ("sack", 102, [(2, 2)]), ("sack", 102, [(2, 3)]), ("sack", 102, [(2, 4)]), ("ackall",)]))
+        scenarios.append((f"{label} message of 8 fragments, everything lost, T3 path", policy, [("tx",), ("t3",), ("ackall",)]))
+        scenarios.append((f"{label} message of 8 fragments, gap-acked chunks then T3", policy, [("tx",), ("sack", 99, [(2, 3)]), ("t3",), ("sack", 99, [(2, 3)]), ("ackall",)]))
+    for label, policy, events in scenarios:
+        me = sender(8 * MTU)
+        queue(me, 100, 1, 0, 8, policy)
+        problem = None
+        try:
+            for i, evn in enumerate(events):
+                if evn[0] == "tx":
+                    hook.run_method(transmit, me, [], {})
+                elif evn[0] == "sack":
+                    hook.run_method(sackf, me, [sack(evn[1], evn[2])], {})
+                elif evn[0] == "t3":
+                    me._t3_handle = None
+                    hook.run_method(t3x, me, [], {})
+                elif evn[0] == "ackall":
+                    # the peer acknowledges whatever is outstanding (retransmissions / FORWARD-TSN arrived), possibly in several rounds
+                    for _ in range(12):
+                        top = max([c.tsn for c in me._sent_queue] + [me._advanced_peer_ack_tsn, me._last_sacked_tsn])
+                        hook.run_method(sackf, me, [sack(top)], {})
+                        if not me._sent_queue and not me._outbound_queue:
+                            break
+                if me._flight_size > outstanding(me):
+                    problem = (f"after event #{i} {evn}: _flight_size is {me._flight_size} but only {outstanding(me)} bytes are outstanding "
+                               f"(sent queue {[c.tsn for c in me._sent_queue]}): the surplus is never released")
+                    break
+            if problem is None:
+                if me._sent_queue or me._outbound_queue:
+                    problem = f"the peer acknowledged everything it was sent, yet chunks {[c.tsn for c in me._sent_queue]} / {[c.tsn for c in me._outbound_queue]} remain"
+                else:
+                    del wire[:]
+                    nxt = queue(me, 200, 2, 0, 1, None)
+                    hook.run_method(transmit, me, [], {})
+                    if nxt[0] not in wire:
+                        problem = (f"nothing is outstanding, _flight_size={me._flight_size}, cwnd={me._cwnd}, T3 {'armed' if me._t3_handle else 'not armed'}: "
+                                   "a new message on another channel is not transmitted - the association is stalled")
+        except Raised as ex:
+            rep.fail(mk_finding(prog, PROP, RULE, sackf, getattr(ex, "node", None), f"[{label}] raises {ex.name}", construct=f"flight raises {ex.name}"))
+            continue
+        except Unknown as ex:
+            raise AnalysisError(f"{RULE} cannot evaluate [{label}]: {ex}")
+        if problem:
+            rep.fail(mk_finding(prog, PROP, RULE, m("_maybe_abandon") if policy is not None else sackf, None, f"[{label}] {problem}", construct="flight size: " + label.split(",")[0] + ", " + label.split(", ")[-1]))
+        else:
+            rep.ok(RULE, label, sample=f"{len(events)} events: never over-counted; new data goes out after the last ack")
